@@ -751,3 +751,39 @@ package shwap
 //@   let back, e3 = RowNamespaceDataIDFromBinary(bs)
 //@   assume e3 == nil
 //@   assert back.RowID.EdsID.height == height && back.RowID.RowIndex == rowIdx && bytesEq(back.DataNamespace.data, namespace.data)
+
+// ---------------------------------------------------------------------------------------------
+// C09 / C05: the producer of a share-range response. From the full extended rows of the range it keeps,
+// per row, exactly the columns the verifier expects (rowLen), attaches a first-row proof exactly when
+// the range starts inside a row (or is a single row ending inside it) and a last-row proof exactly when
+// a multi-row range ends inside a row, each over exactly the kept columns. It re-slices the row slices
+// it was given in place (the outer slice is the caller's: callers pass a slice of their own making).
+// (A-NMT, prover side: ProveRange(a, b) yields a proof whose range is [a, b).)
+// genProofOf: the proof GenerateSharesProofs builds (nmt tree construction, assumed).
+//@ pure func genProofOf(row int, fromCol int, toCol int, size int, rowShares []libshare.Share) *nmt.Proof
+//@ func GenerateSharesProofs
+//@   property C09 C12
+//@   trusted
+//@   ensures err == nil ==> result0 != nil && result0 == genProofOf(row, fromCol, toCol, size, rowShares)
+//@   ensures err == nil ==> deref(result0).start == fromCol && deref(result0).end == toCol
+
+//@ func RangeNamespaceDataFromShares
+//@   property C09 C05
+//@   modifies extendedRowShares
+//@   requires forall i int :: 0 <= i && i < len(extendedRowShares) ==> len(extendedRowShares[i]) == len(extendedRowShares[0])
+//@   requires 0 <= from.Col && from.Col < len(extendedRowShares[0])/2 && 0 <= to.Col && to.Col < len(extendedRowShares[0])/2 && (to.Row > from.Row || from.Col <= to.Col)
+//@   requires mod(len(extendedRowShares[0]), 2) == 0
+//@   ensures err == nil ==> result0.Shares == extendedRowShares && len(result0.Shares) == to.Row - from.Row + 1 && len(result0.Shares) > 0
+//@   ensures err == nil ==> forall i int :: 0 <= i && i < len(result0.Shares) ==> len(result0.Shares[i]) == rowLen(i, len(result0.Shares), from.Col, to.Col, old(len(extendedRowShares[0]))/2)
+//@   ensures err == nil ==> (result0.FirstIncompleteRowProof != nil <==> (from.Col != 0 || (to.Row == from.Row && to.Col != old(len(extendedRowShares[0]))/2 - 1)))
+//@   ensures err == nil ==> (result0.LastIncompleteRowProof != nil <==> (to.Row > from.Row && to.Col != old(len(extendedRowShares[0]))/2 - 1))
+//@   ensures err == nil && result0.FirstIncompleteRowProof != nil ==> deref(result0.FirstIncompleteRowProof).start == from.Col && deref(result0.FirstIncompleteRowProof).end == from.Col + len(result0.Shares[0])
+//@   ensures err == nil && result0.LastIncompleteRowProof != nil ==> deref(result0.LastIncompleteRowProof).start == 0 && deref(result0.LastIncompleteRowProof).end == to.Col + 1
+//@   loop 1: invariant -1 <= rangeindex && rangeindex < len(extendedRowShares) && len(extendedRowShares) == numRows && odsSize == old(len(extendedRowShares[0]))/2
+//@   loop 1: invariant forall j int :: 0 <= j && j <= rangeindex ==> len(extendedRowShares[j]) == rowLen(j, numRows, from.Col, to.Col, odsSize)
+//@   loop 1: invariant forall j int :: rangeindex < j && j < numRows ==> len(extendedRowShares[j]) == ((j == 0 && startProof) ? rowLen(0, numRows, from.Col, to.Col, odsSize) : ((j == numRows-1 && endProof) ? to.Col + 1 : 2*odsSize))
+//@   loop 1: invariant (startProof ==> firstIncompleteRowProof != nil && deref(firstIncompleteRowProof).start == from.Col && deref(firstIncompleteRowProof).end == from.Col + rowLen(0, numRows, from.Col, to.Col, odsSize)) && (endProof ==> lastIncompleteRowProof != nil && deref(lastIncompleteRowProof).start == 0 && deref(lastIncompleteRowProof).end == to.Col + 1)
+//@   loop 2: invariant (startProof ==> firstIncompleteRowProof != nil && deref(firstIncompleteRowProof).start == from.Col && deref(firstIncompleteRowProof).end == from.Col + rowLen(0, numRows, from.Col, to.Col, odsSize)) && (endProof ==> lastIncompleteRowProof != nil && deref(lastIncompleteRowProof).start == 0 && deref(lastIncompleteRowProof).end == to.Col + 1)
+//@   loop 2: invariant len(extendedRowShares) == numRows && 0 <= row && row < numRows
+//@   loop 2: invariant forall j int :: 0 <= j && j <= row ==> len(extendedRowShares[j]) == rowLen(j, numRows, from.Col, to.Col, odsSize)
+//@   loop 2: invariant forall j int :: row < j && j < numRows ==> len(extendedRowShares[j]) == ((j == 0 && startProof) ? rowLen(0, numRows, from.Col, to.Col, odsSize) : ((j == numRows-1 && endProof) ? to.Col + 1 : 2*odsSize))
